@@ -17,9 +17,9 @@
    C17_print_command_text_injective, C17_placeholders_by_text_scanner): the scanner model in file mode on the
    string PrintNode.String() writes sends "{", the items of [tokens_of_print] and EOF (lexText at "{",
    lexLeftDelim, lexBeginTag, the expression and directive lists inside the tag, "}" -> lexRightDelim, lexText
-   at the end of the input); the parsePrint model on these items returns the command up to positions.  Not
-   covered: the command-level dispatch of parse.SoyFile (itemList -> textOrTag -> beginTag's implicit-print
-   case), which hands these items to parsePrint -- that step stays with the harness.
+   at the end of the input); the parsePrint model on these items returns the command up to positions.
+   C17_print_command_file_roundtrip goes through the file entry point: the command-level dispatch of parse.SoyFile
+   (itemList -> textOrTag -> beginTag's implicit-print case -> parsePrint) under the entry point's own budget.
    Property theorems only. *)
 (* source tie by translation: the lemmas of these files are obligations of this property *)
 From Soy Require Import Proofs.SourceTieExpr Proofs.SourceTieQuote Proofs.SourceTieAstPrint Proofs.SourceTieUnquote.
